@@ -86,4 +86,31 @@ Proof.
   move=> uu. rewrite !det_mulmx det_diag det_tr mulrAC -{1}(det_tr u) -det_mulmx uu det1 mul1r. by [].
 Qed.
 
+(* ---------- the density depends on a square-root factor only through R^T R (sqrtprec) resp. R R^T (sqrtcov, the code's
+   reading): multiplying by any orthogonal Q (reflections and signed permutations included, det Q = -1 allowed) changes
+   neither the quadratic form nor the determinant under the logarithm.  In particular the SIGN of det R never enters. ---------- *)
+Lemma orth_gram m (Q : 'M[F]_n) (A : 'M[F]_(n, m)) : Q^T *m Q = 1%:M -> (Q *m A)^T *m (Q *m A) = A^T *m A.
+Proof. by move=> h; rewrite trmx_mul -mulmxA (mulmxA Q^T) h mul1mx. Qed.
+
+Theorem sqrtprec_orth_invariance (Q R : 'M[F]_n) d : Q^T *m Q = 1%:M ->
+  [/\ (Q *m R)^T *m (Q *m R) = R^T *m R,
+      (Q *m R *m d)^T *m (Q *m R *m d) = (R *m d)^T *m (R *m d)
+    & \det ((Q *m R) *m (Q *m R)^T) = \det (R *m R^T)].
+Proof.
+  move=> h; split; first exact: orth_gram.
+  - by rewrite -mulmxA; apply: orth_gram.
+  - have dq : \det Q * \det Q = 1 by rewrite -{1}(det_tr Q) -det_mulmx h det1.
+    by rewrite !det_mulmx !det_tr !det_mulmx mulrACA dq mul1r.
+Qed.
+
+Theorem sqrtcov_orth_invariance (Q R : 'M[F]_n) : Q *m Q^T = 1%:M -> (R *m Q) *m (R *m Q)^T = R *m R^T.
+Proof. by move=> h; rewrite trmx_mul mulmxA -(mulmxA R) h mulmx1. Qed.
+
+(* the determinant under the logarithm is a square: the same for R and for any sign pattern of its rows *)
+Theorem det_gram_sign_free (R : 'M[F]_n) : \det (R *m R^T) = \det R ^+ 2 /\ \det ((- R) *m (- R)^T) = \det (R *m R^T).
+Proof.
+  split; first by rewrite det_mulmx det_tr expr2.
+  by rewrite -scaleN1r linearZ /= -scalemxAl -scalemxAr scalerA mulN1r opprK scale1r.
+Qed.
+
 End Forms.
